@@ -3,6 +3,7 @@ import json
 
 from props import names_common as nc
 from props import c12_blank as bl
+from props import c12_magic as mg
 
 ENGINE = "names"
 RULE = ("bounded-exhaustive token sequences over {Ab, and, AND, aNd, an, d, space, tab, newline, ~, {, }, backslash, \\', comma} "
@@ -16,7 +17,12 @@ RULE = ("bounded-exhaustive token sequences over {Ab, and, AND, aNd, an, d, spac
         "{Ab, and, space, x} (thorough: {Ab, and, aNd, space, newline, x}) plus a seeded sample of lengths 4-7 over the full alphabet "
         "and the whole class; side-gap-and-gap-side templates with x next to / instead of the blanks, as a side, after a backslash "
         "(exhaustive small set per x, seeded sample of a wider one); random lists with x at name edges, as names, around 'and', at "
-        "the list edges; the same texts through the middlewares")
+        "the list edges; the same texts through the middlewares. "
+        "Magic words as names (harness/props/c12_magic.py; selfref.MAGIC_WORDS + others / et al. / and / Jr, von / month / number / "
+        "None-like families in every case variant): EVERY word in every form (whole name, first / last / inner word, before / after "
+        "the comma, tied) at EVERY position of lists of 1..4 names, at the function level and through SeparateCoAuthors then "
+        "MergeCoAuthors; random lists of such names; random entries through every middleware sequence, incl. lists of magic pieces "
+        "handed to MergeCoAuthors directly (merging a list of strings = joining it with ' and ')")
 TRUSTED = ["independent Python oracle of the property text (harness/props/names_common.py: conserved, ref_split)"]
 ASSUMPTIONS = ["characters are compared by code point; CPython's flags are not consulted by the splitter"]
 
@@ -129,6 +135,17 @@ def generate(rng, tier):
         mws = rng.choice([[0], [0, 1], [0, 1, 0], [1], [1, 0]])
         nf = None if rng.random() < 0.85 else rng.choice([["author"], ["title", "author"], []])
         cases.append({"stream": "blank-middleware", "input": {"level": "mw", "fields": fields, "mws": mws, "nf": nf}})
+    # ---- magic words as names (appended: the streams above keep their inputs)
+    texts = []
+    for s, form in mg.gen_positions(rng, tier, seen):
+        texts.append(s)
+        cases.append({"stream": "magic-positions", "input": {"level": "fn", "s": s, "mg": form}})
+    for _ in range(2500 if tier == "quick" else 30000):
+        cases.append({"stream": "magic-lists", "input": {"level": "fn", "s": mg.random_list(rng, FIRST, GLUE), "mg": "random"}})
+    for inp in mg.gen_middleware_positions(rng, texts):
+        cases.append({"stream": "magic-middleware", "input": inp})
+    for inp in mg.gen_middleware_random(rng, 1500 if tier == "quick" else 20000, FIRST, GLUE):
+        cases.append({"stream": "magic-middleware", "input": inp})
     return cases
 
 
@@ -196,6 +213,8 @@ def impl(case):
         bal = nc.balanced(s.strip(nc.WS4))
         rec["nontrivial"] = any(c in s.strip(nc.WS4) for c in " \t\r\n{}\\")
         rec["tags"] = ["balanced" if bal else "unbalanced"] + bl.tags(s)
+        if "mg" in inp:
+            rec["tags"] += ["magic-kind:" + str(inp["mg"])] + mg.tags(s)
         if r[0] == "exc":
             rec["sx_out"] = implutil.r_exc(r[1])
             rec["oracle"] = {"ok": False, "detail": "split_multiple_persons_names raised %s on %r" % (r[2], s)}
@@ -243,6 +262,16 @@ def impl(case):
     rec = {"sx_in": sx_in, "key": json.dumps([inp["fields"], inp["mws"], nf]), "nontrivial": True, "tags": ["mw"]}
     blank_tags = sorted(set(t for k, v in orig if k in name_fields and isinstance(v, str) for t in bl.tags(v)))
     rec["tags"] += ["mw:" + t for t in blank_tags]
+    if "mg" in inp:
+        magic_tags = set()
+        for k, v in orig:
+            if k in name_fields and isinstance(v, str):
+                magic_tags.update(mg.tags(v))
+            elif k in name_fields and isinstance(v, list) and all(isinstance(x, str) for x in v):
+                magic_tags.update(mg.tags_of_pieces(v))
+                magic_tags.add("magic:list-value-merged-directly")
+        rec["tags"] += ["mw:magic-kind:" + str(inp["mg"]), "mw:magic-seq:" + "".join("SM"[m] for m in inp["mws"])]
+        rec["tags"] += ["mw:" + t for t in sorted(magic_tags)]
     if r[0] == "exc":
         rec["sx_out"] = implutil.r_exc(r[1])
         # only a non-string value in a name field may make SeparateCoAuthors raise / a non-str list MergeCoAuthors
@@ -267,9 +296,12 @@ def impl(case):
                 if v1 != v0 or type(v1) is not type(v0):
                     ok, detail = False, "non-name field %s changed" % k
                 continue
+            seq = inp["mws"]
+            if isinstance(v0, list) and all(isinstance(x, str) for x in v0) and seq and seq[0] == 1:
+                # merging = joining the pieces with ' and ' (property text); from there on the field is that text
+                v0 = " and ".join(v0)
             if not isinstance(v0, str):
                 continue
-            seq = inp["mws"]
             # strip leading merges (identity on strings)
             while seq and seq[0] == 1:
                 seq = seq[1:]
